@@ -85,6 +85,18 @@ def judge_list(idx, mode, vr, table=None, container="list"):
         res = make_readable_bulk(tuple(entries) if container == "tuple" else list(entries), mode=mode, very_readable=vr)
     except Exception as e:  # noqa
         return [dict(sig="bulk/raises", case=case, observed=repr(e), msg="make_readable_bulk(%r, mode=%d, very_readable=%s) raised %r" % (entries, mode, vr, e))]
+    if container == "list" and len(entries) <= 2 and (mode, vr) == (1, False):
+        import copy
+
+        lst = copy.deepcopy(entries)
+        snap = copy.deepcopy(lst)
+        r1 = make_readable_bulk(lst, mode=mode, very_readable=vr)
+        same_after = lst == snap
+        r2 = make_readable_bulk(lst, mode=mode, very_readable=vr)
+        if not same_after or r1 != res or r2 != res:
+            return [dict(sig="bulk/input_list_mutated_or_second_call_differs", case=case, observed=[repr(lst), repr(r1), repr(r2)], expected=repr(res),
+                         msg="make_readable_bulk(%r, mode=%d, very_readable=%s): list after the call %r; first call %r, same object again %r"
+                             % (entries, mode, vr, lst, r1, r2))]
     if not isinstance(res, list) or len(res) != len(entries):
         return [dict(sig="bulk/length_differs", case=case, observed=repr(res), msg="bulk of %d entries returned %r" % (len(entries), res))]
     out = []
